@@ -955,6 +955,55 @@ def laws(W, rec):
         except Exception as e:
             law("C08/combined-deepcopy", False, f"deepcopy then read raised {type(e).__name__}: {e}", case)
         reject_all(c, MUT_MD, lambda o: sorted(o.items(multi=True)), "CombinedMultiDict", case)
+        # a view and the dicts it wraps copied *together* (one dict wrapped twice; request-like holders of args, form and
+        # values): deep copy and pickle round trip agree - the copied view looks at the copied dicts
+        for nm_, mk_ in (("copy.deepcopy", copy.deepcopy), ("pickle", lambda o: pickle.loads(pickle.dumps(o))), ("deepcopy-method", lambda o: o.deepcopy() if hasattr(o, "deepcopy") else copy.deepcopy(o))):
+            try:
+                twice = mk_(DS.CombinedMultiDict([b, b]))
+                twice.dicts[0].add("w", "1")
+                got_twice = twice.getlist("w")
+                if nm_ != "deepcopy-method":
+                    holder = mk_({"args": a, "form": b, "values": DS.CombinedMultiDict([a, b])})
+                    holder["form"].add("w2", "1")
+                    got_holder = ("w2" in holder["values"], holder["values"].getlist("w2"), len(holder["values"]) == len(set(holder["args"]) | set(holder["form"])))
+                else:
+                    got_holder = (True, ["1"], True)
+            except Exception as e:  # noqa: BLE001
+                law("C08/combined-copied-together", False, f"{nm_}: {type(e).__name__}: {e}", case)
+                continue
+            law("C08/combined-copied-together", got_twice == ["1", "1"] and got_holder == (True, ["1"], True) and "w" not in b and "w2" not in b,
+                f"{nm_}: a view over one dict twice, copied, then one add to the copied dict: the view lists {got_twice!r}; a holder of args, form and their view, copied, then one add to the copied form: "
+                f"(key visible through the view, values, length agrees) = {got_holder!r}", case)
+    # Headers store str(value): values that compare and hash alike but read differently (True / 1 / 1.0, 0 / False / -0.0,
+    # 2.5 / Fraction(5, 2)) meet in one process, through every way of storing a value
+    from decimal import Decimal
+    from fractions import Fraction
+
+    class Ticker:
+        """hashable, equal to itself, and its text moves on"""
+        n = 0
+
+        def __str__(self):
+            Ticker.n += 1
+            return f"tick-{Ticker.n}"
+
+    tick = Ticker()
+    for values in ([True, 1, 1.0, Decimal(1), Fraction(1)], [1.0, True, 1], [0, False, 0.0, -0.0], [-0.0, 0.0, False, 0], [2.5, Fraction(5, 2), Decimal("2.5")], [Fraction(5, 2), 2.5], [tick, tick, tick]):
+        stores = {
+            "constructor": lambda v: DS.Headers([("x", v)]), "add": lambda v: (lambda h_: (h_.add("x", v), h_)[1])(DS.Headers()), "set": lambda v: (lambda h_: (h_.set("x", v), h_)[1])(DS.Headers()),
+            "setitem": lambda v: (lambda h_: (h_.__setitem__("x", v), h_)[1])(DS.Headers()), "extend": lambda v: (lambda h_: (h_.extend([("x", v)]), h_)[1])(DS.Headers()),
+            "update": lambda v: (lambda h_: (h_.update({"x": v}), h_)[1])(DS.Headers()), "setlist": lambda v: (lambda h_: (h_.setlist("x", [v]), h_)[1])(DS.Headers()),
+            "setdefault": lambda v: (lambda h_: (h_.setdefault("x", v), h_)[1])(DS.Headers()), "index": lambda v: (lambda h_: (h_.__setitem__(0, ("x", v)), h_)[1])(DS.Headers([("x", "old")])),
+        }
+        for nm_, store in stores.items():
+            got_, want_ = [], []
+            for v in values:
+                if isinstance(v, Ticker):
+                    want_.append(f"tick-{Ticker.n + 1}")
+                else:
+                    want_.append(str(v))
+                got_.append(store(v).get("x"))
+            law("C08/Headers:stored-text-is-not-str-of-the-value", got_ == want_, f"{nm_}: values {values!r} stored one after the other read back as {got_!r}, str() gives {want_!r}", (nm_, repr(values)))
     # pickles travel: a container hashed and pickled here, loaded by an interpreter with another hash seed, is equal to
     # one built there and hashes like it (sessions / caches shared between worker processes)
     import os
